@@ -182,6 +182,38 @@ def leaderAll (c : Cluster) : List (String × List Int) → Int → Except Route
       | .error e => .error e
       | .ok cur' => leaderAll c rest cur'
 
+/-! ### the leader loops with the iteration regenerated from the source
+
+`Gen.Routing.leaderStep_<pkg>` / `leaderTopic_<pkg>` / `leaderInit_<pkg>` are obtained by executing the body of
+`(*Request).Broker` of produce / fetch / rawproduce symbolically; `leaderAllWith` folds them over the request the way
+the two `for … range` loops do.  Props/C12 proves `leaderAllWith … = leaderAll` for the three packages. -/
+
+def toRouteErr : KV.Gen.Routing.LeaderErr → RouteErr
+  | .noTopic => .noTopic
+  | .noPartition => .noPartition
+  | .noLeader => .noLeader
+  | .mismatch => .mismatch
+
+abbrev LeaderStep := Int → Option Int → (Int → Option Int) → Except KV.Gen.Routing.LeaderErr Int
+
+def leaderPartsWith (step : LeaderStep) (c : Cluster) (t : Topic) : List Int → Int → Except RouteErr Int
+  | [], cur => .ok cur
+  | p :: ps, cur =>
+    match step cur ((t.partitions.lookup p).map (·.leader)) (fun id => (c.brokers.lookup id).map (·.id)) with
+    | .error e => .error (toRouteErr e)
+    | .ok cur' => leaderPartsWith step c t ps cur'
+
+def leaderAllWith (topicf : Bool → Option KV.Gen.Routing.LeaderErr) (step : LeaderStep) (c : Cluster) :
+    List (String × List Int) → Int → Except RouteErr Int
+  | [], cur => .ok cur
+  | (tn, ps) :: rest, cur =>
+    match topicf (c.topics.lookup tn).isSome with
+    | some e => .error (toRouteErr e)
+    | none =>
+      match leaderPartsWith step c ((c.topics.lookup tn).getD Topic.zero) ps cur with
+      | .error e => .error e
+      | .ok cur' => leaderAllWith topicf step c rest cur'
+
 /-- listoffsets.Request.Broker: only `Topics[0].Partitions[0]` is looked at (index panics are explicit);
 an unknown topic / partition / leader gives −1 (the control connection: any broker answers with the error code). -/
 def leaderFirst (c : Cluster) (tps : List (String × List Int)) : Except RouteErr Int :=
